@@ -74,25 +74,37 @@ def run(tier):
     for k in range(nem):
         em = itf.ErrorModel()
         lo, hi = sorted((rng.uniform(0.3, 0.5), rng.uniform(0.5, 0.7)))
-        em.bs_reflectivity = rng.choice([dists.TopHat(lo, hi), dists.Gaussian(0.5, 0.05, min_value=lo, max_value=hi), dists.Constant(0.5)])
+        em.bs_reflectivity = rng.choice([dists.TopHat(lo, hi), dists.Gaussian(0.5, 0.05, min_value=lo, max_value=hi), dists.Constant(0.5),
+                                         dists.Gaussian(0.5, 0.08, max_value=hi), dists.Gaussian(0.5, 0.08, min_value=lo)])
+        one_sided = (em.bs_reflectivity._min_value == -np.inf, em.bs_reflectivity._max_value == np.inf) if isinstance(em.bs_reflectivity, dists.Gaussian) else (False, False)
         lmax = rng.uniform(0.05, 0.3)
-        em.loss = rng.choice([dists.TopHat(0, lmax), dists.Gaussian(lmax / 2, 0.1, min_value=0, max_value=lmax), dists.Constant(0.0)])
+        em.loss = rng.choice([dists.TopHat(0, lmax), dists.Gaussian(lmax / 2, 0.1, min_value=0, max_value=lmax), dists.Constant(0.0),
+                              dists.Gaussian(0.03, 0.04, min_value=0)])
+        loss_one_sided = isinstance(em.loss, dists.Gaussian) and em.loss._max_value == np.inf
         pmax = rng.uniform(0.01, 0.2)
         em.phase_offset = rng.choice([dists.TopHat(-pmax, pmax), dists.Gaussian(0, 0.1, min_value=-pmax, max_value=pmax), dists.Constant(0.0)])
         n = rng.randint(2, 6)
         c = lw.Unitary(lw.random_unitary(n, seed=rng.randint(0, 10 ** 6)))
         sd = rng.randint(0, 10 ** 6)
-        m1 = itf.Reck(em).map(c, seed=sd)
-        m2 = itf.Reck(em).map(c, seed=sd)
         chk.count(key="em%d" % k)
         script = {"error_model": str(em), "n": n, "seed": sd}
+        try:
+            m1 = itf.Reck(em).map(c, seed=sd)
+            m2 = itf.Reck(em).map(c, seed=sd)
+        except Exception as e:  # noqa: BLE001
+            chk.violation("raised", "Reck.map with error model raised %s: %s (a drawn value outside its declared bounds?)" % (type(e).__name__, e), script,
+                          sig={"clause": "raised", "family": "error_model"})
+            continue
         ok, detail, phases, refl, losses = ra.structure(m1)
         if not ok:
             chk.violation("structure", detail, script, sig={"clause": "structure", "family": "error_model"})
-        if any(not (lo - 1e-12 <= r <= hi + 1e-12) for r in refl) and not isinstance(em.bs_reflectivity, dists.Constant):
-            chk.violation("bounds", "a drawn reflectivity %s lies outside [%g, %g]" % ([r for r in refl if not lo <= r <= hi][:1], lo, hi), script, sig={"clause": "bounds"})
-        if any(not (-1e-12 <= x <= lmax + 1e-12) for x in losses):
-            chk.violation("bounds", "a drawn loss lies outside [0, %g]" % lmax, script, sig={"clause": "bounds"})
+        rlo = -np.inf if one_sided[0] else lo
+        rhi = np.inf if one_sided[1] else hi
+        if any(not (rlo - 1e-12 <= r <= rhi + 1e-12) for r in refl) and not isinstance(em.bs_reflectivity, dists.Constant):
+            chk.violation("bounds", "a drawn reflectivity %s lies outside [%g, %g]" % ([r for r in refl if not rlo <= r <= rhi][:1], rlo, rhi), script, sig={"clause": "bounds"})
+        lhi = np.inf if loss_one_sided else lmax
+        if any(not (-1e-12 <= x <= lhi + 1e-12) for x in losses):
+            chk.violation("bounds", "a drawn loss lies outside [0, %g]" % lhi, script, sig={"clause": "bounds"})
         if np.abs(m1.U_full - m2.U_full).max() > 0 if m1.U_full.shape == m2.U_full.shape else True:
             chk.violation("seed", "the same seed gave two different mapped circuits", script, sig={"clause": "seed"})
         sv = np.linalg.svd(m1.U, compute_uv=False)
